@@ -280,6 +280,21 @@ def run(repo: Repo, chk: Check):
     sc = Scanner(repo)
     chk.saw("compiler", "compile_code")
     cfg, rd = sc.cfg, sc.rd
+    # a directive changes one attribute of an options object that already exists: that equals constructing the object with the value
+    # only if the class derives nothing from its fields when it is constructed
+    oc = repo.mod("compile_pass").cls("CompileOptions")
+    for st in oc.body:
+        if isinstance(st, ast.FunctionDef) and st.name in ("__post_init__", "__init__", "__new__"):
+            derived = sorted({t.attr for a in ast.walk(st) if isinstance(a, (ast.Assign, ast.AugAssign)) for t in (a.targets if isinstance(a, ast.Assign) else [a.target])
+                              if isinstance(t, ast.Attribute) and isinstance(t.value, ast.Name) and t.value.id == "self" and t.attr in sc.fields})
+            chk.judge("R15.d", f"compile_pass:CompileOptions.{st.name}:no field is derived from another at construction", not derived,
+                      f"CompileOptions.{st.name} sets {derived} from other fields when the object is constructed; a directive is applied with setattr afterwards and does not go "
+                      f"through it, so '# pytrapic: compact' and CompileOptions(compact=True) give different option vectors", {"derived": derived},
+                      f"{repo.mod('compile_pass').path}:{st.lineno} in CompileOptions.{st.name}")
+        elif isinstance(st, ast.FunctionDef) and st.name in ("__setattr__", "__getattribute__", "__getattr__") or \
+                isinstance(st, ast.FunctionDef) and any(norm(d) == "property" or norm(d).endswith(".setter") for d in st.decorator_list):
+            raise AnalysisError(f"CompileOptions.{st.name}: attribute access is customised; setattr on an options object is no longer a plain store")
+    chk.ok("R15.d", "compile_pass:CompileOptions:plain dataclass fields", {"fields": sorted(sc.fields)})
     if not sc.setattrs:
         raise AnalysisError("compile_code: no setattr site (directive application) found")
     fields = set(sc.fields)
